@@ -233,6 +233,16 @@ def write_union(encoder, datum, schema, named_schemas, fname, options):
     write_data(encoder, datum, schema[index], named_schemas, fname, options)
 
 
+def _accepts_null(field_type):
+    """True when a field of this type may be left out of a record without a
+    default: the type is null or a union with a null branch"""
+    if isinstance(field_type, list):
+        return any(_accepts_null(branch) for branch in field_type)
+    if isinstance(field_type, dict):
+        return field_type.get("type") == "null"
+    return field_type == "null"
+
+
 def write_record(encoder, datum, schema, named_schemas, fname, options):
     """A record is encoded by encoding the values of its fields in the order
     that they are declared. In other words, a record is encoded as just the
@@ -253,7 +263,7 @@ def write_record(encoder, datum, schema, named_schemas, fname, options):
                 raise ValueError(
                     f"Field {name} is specified in the schema but missing from the record"
                 )
-            elif "default" not in field and "null" not in field_type:
+            elif "default" not in field and not _accepts_null(field_type):
                 raise ValueError(f"no value and no default for {name}")
         datum_value = datum.get(name, field.get("default"))
         if field_type == "float" or field_type == "double":
